@@ -52,3 +52,21 @@ Proof.
   exists R. split; [exact E|]. split; [exact V|]. apply (ops_reverse_lang A HA R E).
 Qed.
 Print Assumptions C08_reverse.
+
+Theorem C08_intersection A B :
+  valid_nfa A = true -> valid_nfa B = true ->
+  exists R, nfa_intersection A B = Ok R /\ valid_nfa R = true /\ L_nfa R =L l_inter (L_nfa A) (L_nfa B).
+Proof.
+  intros HA HB. destruct (ops_inter_total A B HA HB) as [R [E V]].
+  exists R. split; [exact E|]. split; [exact V|]. apply (ops_inter_lang A B HA R E).
+Qed.
+Print Assumptions C08_intersection.
+
+Theorem C08_shuffle_product A B :
+  valid_nfa A = true -> valid_nfa B = true ->
+  exists R, nfa_shuffle A B = Ok R /\ valid_nfa R = true /\ L_nfa R =L l_shuffle (L_nfa A) (L_nfa B).
+Proof.
+  intros HA HB. destruct (ops_shuffle_total A B HA HB) as [R [E V]].
+  exists R. split; [exact E|]. split; [exact V|]. apply (ops_shuffle_lang A B HA HB R E).
+Qed.
+Print Assumptions C08_shuffle_product.
